@@ -237,10 +237,18 @@ fn c_sbrm(s: Sbrm) -> String {
 fn c_sirm(s: Sirm) -> String { format!("sirm:{}", dbg_nums(&s, &[])[0]) }
 fn c_table(t: ManifestTable) -> String { format!("mt:{}", dbg_nums(&t, &[])[0]) }
 const ENTRIES_SHOWN: usize = 3;
-fn c_entries(it: impl Iterator<Item = ManifestEntry>) -> String {
-    let n = match it.size_hint() { (lo, Some(hi)) if lo == hi => hi.to_string(), _ => "?".into() };
-    let firsts: Vec<String> = it.take(ENTRIES_SHOWN).map(|e| dbg_nums(&e, &[])[0].to_string()).collect();
-    format!("entries:{}:{}", n, if firsts.is_empty() { "-".into() } else { firsts.join(",") })
+/// Tables of at most this many entries are walked to their LAST entry (the return type
+/// `impl Iterator` hides `DoubleEndedIterator::next_back`, and `Map<Range<u64>>` has no O(1)
+/// `nth`/`last`, so the last entry of a huge table cannot be observed cheaply).
+const ENTRIES_WALKED: u64 = 1 << 16;
+fn c_entries(mut it: impl Iterator<Item = ManifestEntry>) -> String {
+    let (n, count) = match it.size_hint() { (lo, Some(hi)) if lo == hi => (hi.to_string(), Some(hi as u64)), _ => ("?".into(), None) };
+    let firsts: Vec<String> = it.by_ref().take(ENTRIES_SHOWN).map(|e| dbg_nums(&e, &[])[0].to_string()).collect();
+    let last = match count {
+        Some(c) if c > ENTRIES_SHOWN as u64 && c <= ENTRIES_WALKED => it.last().map_or("-".into(), |e| dbg_nums(&e, &[])[0].to_string()),
+        _ => "-".into(),
+    };
+    format!("entries:{}:{}:{}", n, if firsts.is_empty() { "-".into() } else { firsts.join(",") }, last)
 }
 
 // ---------------------------------------------------------------------------------------
@@ -778,7 +786,8 @@ fn oracle(name: &str, base: u64, cap: u64, arg: &Arg, img: &Image, broken: bool)
                         E_DEV.into() // the table [base, base + 8 + 64 n) does not fit into the address space
                     } else {
                         let shown: Vec<String> = (0..n.min(ENTRIES_SHOWN as u64)).map(|i| (first + 64 * i as u128).to_string()).collect();
-                        format!("ok entries:{}:{}", n, if shown.is_empty() { "-".into() } else { shown.join(",") })
+                        let last = if n > ENTRIES_SHOWN as u64 && n <= ENTRIES_WALKED { (first + 64 * (n - 1) as u128).to_string() } else { "-".into() };
+                        format!("ok entries:{}:{}:{}", n, if shown.is_empty() { "-".into() } else { shown.join(",") }, last)
                     }
                 }
                 Err(e) => e,
@@ -878,7 +887,14 @@ fn do_acc(cx: &mut Ctx, img: &Image, name: &str, base: u64, cap: u64, broken: bo
     let r = match r {
         Ok(None) => {
             cx.rep.count("receiver-not-constructible");
-            assert!(oracle(name, base, cap, arg, img, broken).is_none(), "harness: oracle disagrees on receiver existence for {name} base {base}");
+            if oracle(name, base, cap, arg, img, broken).is_some() {
+                // the tables say the receiver exists (its capability register is addressable),
+                // but the real constructor refused it
+                cx.rep.case(&format!("{name} {base} {cap} receiver-refused"), false);
+                cx.rep.violation(json!({"accessor": name, "class": "receiver"}),
+                    &format!("{name}: the receiver at base {base} could not be constructed (constructor returned an error) although its capability register [base+4, base+12) lies inside the address space"),
+                    replay_json("acc", img, name, "", base, cap, broken, arg));
+            }
             return;
         }
         Ok(Some(x)) => Ok(x),
@@ -1122,7 +1138,7 @@ fn gen_image(rng: &mut Rng, round: u64) -> (Image, Layout) {
     // ---- manifest table and the entry under test
     let mt = |o: u64| lay.table.checked_add(o);
     if keep(rng) {
-        let n = match rng.below(10) { 0 => u64::MAX, 1 => 1u64 << rng.range(50, 63), 2 => rng.interesting_u64(), _ => rng.below(6) };
+        let n = match rng.below(12) { 0 => u64::MAX, 1 => 1u64 << rng.range(50, 63), 2 => rng.interesting_u64(), 3 => rng.range(4, 300), 4 => rng.range(65530, 65540), _ => rng.below(6) };
         p64(&mut img, mt(0), n);
     }
     let me = |o: u64| lay.entry.checked_add(o);
@@ -1227,6 +1243,39 @@ fn sweeps(cx: &mut Ctx) {
     }
     for v in [0u32, 1, 2, 3, u32::MAX, 0xFFFF_FFFE] {
         do_acc(cx, &with(0x04, v), "Sirm.is_stream_enable", base, 0, false, &Arg::None, "sweep-bit");
+    }
+    // SHA1 register: all zero, and a single non-zero byte at each of the 20 positions
+    do_acc(cx, &Image { seed: 0xC13, segs: vec![(base + 0x18, vec![0u8; 20])] }, "ManifestEntry.sha1_hash", base, 0, false, &Arg::None, "sweep-sha1");
+    for pos in 0..20usize {
+        for v in [1u8, 0x80, 0xFF] {
+            let mut h = vec![0u8; 20];
+            h[pos] = v;
+            do_acc(cx, &Image { seed: 0xC13, segs: vec![(base + 0x18, h)] }, "ManifestEntry.sha1_hash", base, 0, false, &Arg::None, "sweep-sha1");
+        }
+    }
+    // every based register placed so that it ends one byte below / exactly at / one byte past 2^64
+    let top = Image { seed: 0xC13, segs: vec![] };
+    for a in SPEC.iter().filter(|a| a.map != Map::Abrm) {
+        for delta in [-1i128, 0, 1] {
+            let b = ((1i128 << 64) - a.off as i128 - a.len as i128 + delta) as u64;
+            let arg = match a.kind { Kind::Set => Arg::U32(0x0102_0304), _ => Arg::None };
+            do_acc(cx, &top, a.name, b, u64::MAX, false, &arg, "sweep-register-at-top");
+            do_acc(cx, &top, a.name, b, u64::MAX, true, &arg, "sweep-register-at-top");
+        }
+    }
+    for (s, gt) in PAIRS.iter().filter(|p| p.0.starts_with("Sirm.")) {
+        let a = spec(s).unwrap();
+        for delta in [-1i128, 0] {
+            let b = ((1i128 << 64) - a.off as i128 - a.len as i128 + delta) as u64;
+            let arg = match a.kind { Kind::Set => Arg::U32(0xA1B2_C3D4), _ => Arg::None };
+            do_rt(cx, &top, s, gt, b, 0, &arg, "sweep-register-at-top");
+        }
+    }
+    for (name, off, len) in [("Sbrm.new", 4u64, 8u64), ("Sbrm.sirm", 0x20, 8), ("Sbrm.u3v_capability", 4, 8), ("ManifestTable.entries", 0, 8)] {
+        for delta in [-1i128, 0, 1] {
+            let b = ((1i128 << 64) - off as i128 - len as i128 + delta) as u64;
+            do_acc(cx, &top, name, b, u64::MAX, false, &Arg::None, "sweep-register-at-top");
+        }
     }
     // manifest tables ending exactly at / just past the end of the address space
     for (tb, n) in [(u64::MAX - 71, 1u64), (u64::MAX - 71, 2), (u64::MAX - 70, 1), (u64::MAX - 7, 0), (u64::MAX - 7, 1), (u64::MAX - 135, 2), (u64::MAX - 135, 3), (0, (1u64 << 58) - 1), (0, 1u64 << 58), (8, (1u64 << 58) - 1)] {
